@@ -7,8 +7,7 @@
 use std::cell::RefCell;
 
 use crate::{
-    Constraint, Id, Warning, constraints::ConstraintEntry, constraints::JacobianVar,
-    solver::Layout,
+    Constraint, Id, Warning, constraints::ConstraintEntry, constraints::JacobianVar, solver::Layout,
 };
 
 fn layout_for(num_variables: usize) -> Layout {
